@@ -16,6 +16,7 @@ import (
 	"runtime"
 	"slices"
 	"strings"
+	"sync"
 
 	"golang.org/x/tools/go/ssa"
 )
@@ -498,9 +499,10 @@ func callSSA(i *interpreter, caller *frame, callpos token.Pos, fn *ssa.Function,
 		caller: caller, // for panic/recover
 		fn:     fn,
 	}
+	info := fnInfoOf(fn)
 	if fn.Parent() == nil {
-		name := fn.String()
-		if ext := externals[name]; ext != nil {
+		name := info.name
+		if ext := info.ext; ext != nil {
 			i.x.Stats.Stubs[name]++
 			return ext(fr, args)
 		}
@@ -536,8 +538,8 @@ func callSSA(i *interpreter, caller *frame, callpos token.Pos, fn *ssa.Function,
 		i.stack = i.stack[:len(i.stack)-1]
 		i.depth--
 	}()
-	if fn.Pkg != nil && strings.HasPrefix(fn.Pkg.Pkg.Path(), "github.com/resgateio/resgate") {
-		i.x.Stats.Funcs[fn.String()]++
+	if info.repo {
+		i.x.Stats.Funcs[info.name]++
 	}
 
 	fr.env = make(map[ssa.Value]value)
@@ -652,6 +654,27 @@ func doRecover(caller *frame) value {
 		}
 	}
 	return iface{}
+}
+
+type fnInfo struct {
+	name string
+	ext  externalFn
+	repo bool
+}
+
+var fnInfos sync.Map // *ssa.Function -> *fnInfo
+
+func fnInfoOf(fn *ssa.Function) *fnInfo {
+	if v, ok := fnInfos.Load(fn); ok {
+		return v.(*fnInfo)
+	}
+	info := &fnInfo{name: fn.String()}
+	if fn.Parent() == nil {
+		info.ext = externals[info.name]
+	}
+	info.repo = fn.Pkg != nil && strings.HasPrefix(fn.Pkg.Pkg.Path(), "github.com/resgateio/resgate")
+	fnInfos.Store(fn, info)
+	return info
 }
 
 func newInterpreter(prog *ssa.Program, x *Explorer) *interpreter {
